@@ -33,7 +33,7 @@ static uint64_t g_allocsInScope = 0;
 static bool g_countAllocs = false;
 static inline void noteAlloc() {
 	if (!g_countAllocs || !W) return;
-	if (W->inApi && W->inUser == 0) ++g_allocsInScope;
+	if (W->inLib && W->inUser == 0) ++g_allocsInScope;
 }
 #ifdef VERIF_COUNT_ALLOCS
 void* operator new(size_t n) { noteAlloc(); void* p = malloc(n ? n : 1); if (!p) abort(); return p; }
@@ -238,7 +238,7 @@ static void opConstruct(unsigned slot, Policy pol, bool withLogger) {
 #endif
 	in.loggerAttached = HAS_LOG && withLogger;
 	w.apiBegin(in, OP_CTOR);
-	construct(slot, withLogger);
+	LIB(construct(slot, withLogger));
 	w.apiEnd(in);
 	in.alive = true;
 	if (cfg::MANUAL && (in.st.enters || in.st.rootEnters || in.st.guardDeliveries))
@@ -252,7 +252,7 @@ static void opDestroy(unsigned slot) {
 	if (!in.alive) return;
 	const bool wasActive = in.cur >= 0;
 	w.apiBegin(in, OP_DTOR);
-	in.obj->~Instance();
+	LIB(in.obj->~Instance());
 	w.apiEnd(in);
 	in.alive = false;
 	if (cfg::MANUAL) {
@@ -266,14 +266,14 @@ static void opDestroy(unsigned slot) {
 static void opEnter(Inst& in) {
 	World& w = *W;
 	w.apiBegin(in, OP_ENTER);
-	in.obj->enter();
+	LIB(in.obj->enter());
 	w.apiEnd(in);
 	checkObs(in, "enter()");
 }
 static void opExit(Inst& in) {
 	World& w = *W;
 	w.apiBegin(in, OP_EXIT);
-	in.obj->exit();
+	LIB(in.obj->exit());
 	w.apiEnd(in);
 	if (in.cur >= 0 || in.rootIn) w.V("C01", "enter-left-unpaired-at-exit", fmt("exit() left enter(%d) (root entered %d) unpaired; %s", in.cur, int(in.rootIn), w.tail().c_str()));
 	checkObs(in, "exit()");
@@ -283,7 +283,7 @@ static void opExit(Inst& in) {
 static void opUpdate(Inst& in) {
 	World& w = *W;
 	w.apiBegin(in, OP_UPDATE);
-	in.obj->update();
+	LIB(in.obj->update());
 	w.apiEnd(in);
 	checkObs(in, "update()");
 }
@@ -293,7 +293,7 @@ static void opReact(Inst& in, uint32_t value) {
 	const cfg::Ev1 e{value};
 	w.curEvent = &e;
 	w.apiBegin(in, OP_REACT);
-	in.obj->react(e);
+	LIB(in.obj->react(e));
 	w.apiEnd(in);
 	w.curEvent = nullptr;
 	checkObs(in, "react()");
@@ -312,7 +312,7 @@ static void opQuery(Inst& in) {
 	cfg::Ev1 e{42};
 	w.curEvent = &e;
 	w.apiBegin(in, OP_QUERY);
-	static_cast<const Instance*>(in.obj)->query(e);
+	LIB(static_cast<const Instance*>(in.obj)->query(e));
 	w.apiEnd(in);
 	w.curEvent = nullptr;
 	w.flags |= F_QUERY;
@@ -337,10 +337,10 @@ static void opChange(Inst& in, uint8_t dest, bool withPayload, bool immediate) {
 	if (immediate) { w.immOwn = in.loggerAttached; w.immCount = 0; }
 	else { w.ownRequest = true; w.ownLogCount = 0; }
 #if HAS_PAYLOAD
-	if (withPayload) { if (immediate) in.obj->immediateChangeWith(static_cast<StateID>(dest), cfg::makePayload(tag)); else in.obj->changeWith(static_cast<StateID>(dest), cfg::makePayload(tag)); }
+	if (withPayload) { const cfg::Payload pl = cfg::makePayload(tag); if (immediate) LIB(in.obj->immediateChangeWith(static_cast<StateID>(dest), pl)); else LIB(in.obj->changeWith(static_cast<StateID>(dest), pl)); }
 	else
 #endif
-	{ if (immediate) in.obj->immediateChangeTo(static_cast<StateID>(dest)); else in.obj->changeTo(static_cast<StateID>(dest)); }
+	{ if (immediate) LIB(in.obj->immediateChangeTo(static_cast<StateID>(dest))); else LIB(in.obj->changeTo(static_cast<StateID>(dest))); }
 	if (immediate) {
 		if (HAS_LOG && in.loggerAttached && (w.immCount != 1 || w.immOwn))
 			w.V("C16", "action-record-mismatch|immediateChangeTo", fmt("immediateChange(%u) produced %u transition records for the request itself; %s", dest, w.immCount, w.tail().c_str()));
@@ -368,7 +368,7 @@ static void opReport(Inst& in, bool success, uint8_t target) {
 	w.apiBegin(in, success ? OP_SUCCEED : OP_FAIL, target);
 	w.act(in, success ? ACT_SUCCEED : ACT_FAIL, target, 255);
 	w.ownReport = true; w.ownLogCount = 0;
-	if (success) in.obj->succeed(static_cast<StateID>(target)); else in.obj->fail(static_cast<StateID>(target));
+	if (success) LIB(in.obj->succeed(static_cast<StateID>(target))); else LIB(in.obj->fail(static_cast<StateID>(target)));
 	w.ownReport = false;
 	w.noteReport(in, success, target, 255, false);
 	w.expectOwnLog(in, LOG_TASK_STATUS, target, success ? 1 : 0, success ? "succeed(external)" : "fail(external)");
@@ -412,7 +412,7 @@ static void opAttach(Inst& in, bool attach) {
 	World& w = *W;
 	w.apiBegin(in, attach ? OP_ATTACH : OP_DETACH);
 	g_lg[in.slot].slot = in.slot;
-	in.obj->attachLogger(attach ? &g_lg[in.slot] : nullptr);
+	LIB(in.obj->attachLogger(attach ? &g_lg[in.slot] : nullptr));
 	in.loggerAttached = attach;
 	w.apiEnd(in);
 #else
@@ -461,7 +461,7 @@ static GuardedBuffer opSave(Inst& in) {
 	GuardedBuffer g;
 	const Obs before = observe(in);
 	w.apiBegin(in, OP_SAVE);
-	static_cast<const Instance*>(in.obj)->save(g.buf);
+	LIB(static_cast<const Instance*>(in.obj)->save(g.buf));
 	w.apiEnd(in);
 	const Obs after = observe(in);
 	if (in.st.enters || in.st.exits || in.st.reenters || in.st.guardDeliveries || events_since_begin_have_subs(in))
@@ -583,7 +583,7 @@ struct Case {
 #if CFG_MANUAL
 		if (r.cur < 0) {
 			w.apiBegin(r, OP_REPLAY_ENTER, d0);
-			r.obj->replayEnter(static_cast<StateID>(d0));
+			LIB(r.obj->replayEnter(static_cast<StateID>(d0)));
 			w.apiEnd(r);
 			checkObs(r, "replayEnter()");
 		}
@@ -599,7 +599,8 @@ struct Case {
 		Inst& r = R();
 		const Obs before = observe(r);
 		w.apiBegin(r, OP_REPLAY, d);
-		const bool ok = r.obj->replayTransition(static_cast<StateID>(d));
+		bool ok = false;
+		LIB(ok = r.obj->replayTransition(static_cast<StateID>(d)));
 		w.apiEnd(r);
 		if (ok != (d != 255)) w.V("C11", "replayTransition-return-value", fmt("replayTransition(%u) returned %d", d, int(ok)));
 		if (d == 255) {
@@ -667,7 +668,7 @@ struct Case {
 #endif
 		l.policy = POL_HOSTILE;
 		w.apiBegin(l, OP_LOAD, activity < 0 ? 255 : static_cast<uint8_t>(activity));
-		l.obj->load(g.buf);
+		LIB(l.obj->load(g.buf));
 		w.apiEnd(l);
 		checkObs(l, "load()");
 		const int got = l.obj->activeStateId() == ffsm2::INVALID_STATE_ID ? -1 : l.obj->activeStateId();
@@ -712,7 +713,7 @@ struct Case {
 		c.obj = reinterpret_cast<Instance*>(g_store[3]);
 		const size_t e0 = w.events.size();
 		w.apiBegin(c, OP_COPY);
-		new (g_store[3]) Instance(*a.obj);
+		LIB(new (g_store[3]) Instance(*a.obj));
 		w.apiEnd(c);
 		c.alive = true;
 		for (size_t i = e0; i < w.events.size(); ++i)
